@@ -27,20 +27,29 @@ structure TI where
   pending : Option Nat := none   -- Lock(id) issued, entry critical section not yet run
   canc    : Bool := false        -- its ctx is done
   cable   : Bool := true         -- the ctx can end at all (false: LockV2Contract uses context.Background())
-  via     : Nat := 0             -- 0 locker.Lock, 1 Manager.Lock, 2 Manager.LockV2Contract
+  via     : Nat := 0             -- 0 locker.Lock, 1 Manager.Lock, 2 Manager.LockV2Contract,
+                                 -- 3 Manager.CheckIntegrity, 4 Manager.V2CheckIntegrity (lock users: acquire, body, release)
   check   : Bool := false        -- lock acquired inside a Manager call, store lookup not yet done
-  ret     : Nat := 0             -- returned since the last snapshot: 0 no, 1 acquired, 2 ctx error, 3 store error (lock released)
+  ret     : Nat := 0             -- returned since the last snapshot: 0 no, 1 acquired, 2 ctx error, 3 other error (lock released),
+                                 -- 4 a lock user returned nil (lock released)
 deriving BEq, Repr
 
 structure Cand where
   m  : State
   ti : List TI
 
-/-- per contract id: does the store lookup of Manager.Lock / LockV2Contract succeed -/
+/-- per contract id: what the store lookup of Manager.Lock (`m`: ok|nf|bad|win|max) and of
+LockV2Contract (`v`: ok|nf|rn) answer, and what the integrity checks find once they hold the lock
+(`b` v1, `b2` v2: ok | cnt = root count mismatch | mrk = Merkle root mismatch) -/
 structure Cls where
-  mOk : Bool := true
-  vOk : Bool := true
+  m  : String := "ok"
+  v  : String := "ok"
+  b  : String := "ok"
+  b2 : String := "ok"
 deriving BEq, Repr
+
+def Cls.mOk (c : Cls) : Bool := c.m == "ok"
+def Cls.vOk (c : Cls) : Bool := c.v == "ok" || c.v == "rn"
 
 inductive DAct where
   | lock (t id via : Nat) (pre : Bool)
@@ -59,7 +68,8 @@ def parseAct (tok : String) : Option DAct :=
     | [t, id, via, pre] =>
       match t.toNat?, id.toNat?, pre.toNat? with
       | some t, some id, some pre =>
-        let v := if via == "l" then some 0 else if via == "m" then some 1 else if via == "v" then some 2 else none
+        let v := if via == "l" then some 0 else if via == "m" then some 1 else if via == "v" then some 2
+          else if via == "i" then some 3 else if via == "j" then some 4 else none
         v.map fun v => .lock t id v (pre == 1)
       | _, _, _ => none
     | _ => none
@@ -84,7 +94,21 @@ def fp (k : Nat) (c : Cand) : String :=
 
 def clsOk (cls : List Cls) (id via : Nat) : Bool :=
   let c := (cls[id]?).getD {}
-  if via == 1 then c.mOk else if via == 2 then c.vOk else true
+  if via == 1 || via == 3 then c.mOk else if via == 2 || via == 4 then c.vOk else true
+
+/-- the return path a lock user takes on contract `id` -/
+def userPathName (cls : List Cls) (id via : Nat) : String :=
+  let c := (cls[id]?).getD {}
+  if via == 3 then (if c.m != "ok" then c.m else c.b) else (if c.v == "nf" then "nf" else c.b2)
+
+def userPath (cls : List Cls) (id via : Nat) : UserPath :=
+  let p := userPathName cls id via
+  if p == "ok" then .success else if p == "cnt" then .countMismatch else if p == "mrk" then .merkleMismatch else .storeError
+
+def userName (via : Nat) : String := if via == 3 then "CheckIntegrity" else "V2CheckIntegrity"
+
+/-- ctx of the call can end (LockV2Contract / V2CheckIntegrity lock with context.Background()) -/
+def viaCable (via : Nat) : Bool := via != 2 && via != 4
 
 /-- after `Lock` returned nil inside a call: raw locker → acquired; Manager → store lookup pending -/
 def acquired (x : TI) : TI :=
@@ -124,7 +148,15 @@ def internal (cls : List Cls) (c : Cand) (t : Nat) : List Cand :=
     | .error _ => []
   | some (.holding i) =>
     if x.check then
-      if clsOk cls i x.via then [{ m := c.m, ti := c.ti.set t { x with check := false, ret := 1 } }]
+      if clsOk cls i x.via then
+        if x.via ≥ 3 then
+          -- a lock user: integrity.go:68-83 / 157-172, the body does not touch the locker and every
+          -- return path releases (defer): what it returns depends on the path, the Unlock does not
+          let p := userPath cls i x.via
+          match userAfterAcquire c.m t p with
+          | .ok m' => [{ m := m', ti := c.ti.set t { x with check := false, ret := if p == .success then 4 else 3 } }]
+          | .error _ => []
+        else [{ m := c.m, ti := c.ti.set t { x with check := false, ret := 1 } }]
       else
         -- lock.go:96/99/128: cm.locks.Unlock(id); return error
         match mgrAfterAcquire c.m t false with
@@ -165,7 +197,7 @@ def applyAct (c : Cand) : DAct → Option Cand
     match c.m.pcs[t]? with
     | some .idle =>
       if (tiGet c.ti t).pending.isSome then none
-      else some { c with ti := c.ti.set t { pending := some id, canc := pre, cable := via != 2, via := via } }
+      else some { c with ti := c.ti.set t { pending := some id, canc := pre, cable := viaCable via, via := via } }
     | _ => none
   | .cancel t => some { c with ti := c.ti.set t { tiGet c.ti t with canc := true } }
   | .unlock t =>
@@ -186,7 +218,7 @@ def stOf (c : Cand) : List String :=
     | .holding i => s!"h{i}"
 
 def retStr : Nat → String
-  | 1 => "a" | 2 => "e" | 3 => "f" | _ => "-"
+  | 1 => "a" | 2 => "e" | 3 => "f" | 4 => "s" | _ => "-"
 
 def retsOf (c : Cand) : List String := c.ti.map (retStr ·.ret)
 
@@ -201,6 +233,8 @@ structure DState where
   pst    : List String := []             -- previous snapshot (implementation's own observations)
   dcanc  : List Bool := []               -- ctx of the thread's current call is done (from the ops)
   dcable : List Bool := []
+  dvia   : List Nat := []                -- how the thread's current / last call was made, and on which contract
+  did    : List Nat := []
   -- statistics
   hists : Nat := 0
   ops : Nat := 0
@@ -212,6 +246,7 @@ structure DState where
   mgrFail : Nat := 0
   races : Nat := 0
   finals : Nat := 0
+  userRets : Nat := 0                    -- returns of lock users (CheckIntegrity / V2CheckIntegrity)
   maxCands : Nat := 0
   ambiguous : Nat := 0                   -- lines after which more than one model state remained possible
 
@@ -222,11 +257,12 @@ def newHistory (d : DState) (threads ids : Nat) : DState :=
     cands := [{ m := init threads, ti := List.replicate threads {} }]
     k := ids, nthr := threads, cls := List.replicate ids {}, dead := false
     pst := List.replicate threads "i", dcanc := List.replicate threads false
-    dcable := List.replicate threads true, hists := d.hists + 1 }
+    dcable := List.replicate threads true, dvia := List.replicate threads 0, did := List.replicate threads 0
+    hists := d.hists + 1 }
 
 /-- property monitors on the implementation's observations (model-independent) -/
 def monitors (d : DState) (acts : List DAct) (st rets : List String) (locks : Nat)
-    (dcanc dcable : List Bool) : List Verdict :=
+    (dcanc dcable : List Bool) (dvia did : List Nat) : List Verdict :=
   let ids := List.range d.k
   let thr := List.range d.nthr
   let at' (l : List String) (t : Nat) : String := (l[t]?).getD "?"
@@ -239,7 +275,7 @@ def monitors (d : DState) (acts : List DAct) (st rets : List String) (locks : Na
     let unl := (acts.filter fun a => match a with
       | .unlock t => at' d.pst t == s!"h{i}"
       | _ => false).length
-    let failed := (thr.filter fun t => at' rets t == "f").length
+    let failed := (thr.filter fun t => at' rets t == "f" || at' rets t == "s").length
     if admitted > unl + failed then
       some (Verdict.monitor "one_unlock_one_waiter" s!"id={i},admitted={admitted},unlocks={unl + failed}")
     else none
@@ -261,7 +297,13 @@ def monitors (d : DState) (acts : List DAct) (st rets : List String) (locks : Na
     else none
   -- len(locks) = number of contracts somebody holds or waits for
   let refd := (ids.filter fun i => cnt' st s!"h{i}" > 0 || cnt' st s!"w{i}" > 0).length
-  let v6 := if locks > refd then [Verdict.monitor "no_leak" s!"locks={locks},referenced={refd}"]
+  -- a lock user that returned in this step is named: `no_leak/<method>/<return path>`
+  let users := thr.filter fun t => (at' rets t == "f" || at' rets t == "s") && (dvia[t]?).getD 0 ≥ 3
+  let userNames := (users.map fun t =>
+    s!"{userName ((dvia[t]?).getD 0)}/{userPathName d.cls ((did[t]?).getD 0) ((dvia[t]?).getD 0)}").eraseDups
+  -- one user returned: it is the one that leaked; several: all are named (the observation cannot tell them apart)
+  let leakName := if userNames.isEmpty then "no_leak" else "no_leak/" ++ "+".intercalate userNames
+  let v6 := if locks > refd then [Verdict.monitor leakName s!"locks={locks},referenced={refd}"]
     else if locks < refd then [Verdict.monitor "entry_lost" s!"locks={locks},referenced={refd}"] else []
   v1 ++ v2 ++ v3 ++ v4 ++ v5 ++ v6
 
@@ -269,9 +311,54 @@ def describe (cs : List Cand) (k : Nat) : String :=
   let ds := (cs.map fun c => s!"{showStrList (stOf c)}/{showStrList (retsOf c)}/{lenLocks c.m k}").eraseDups
   if ds.isEmpty then "none" else "|".intercalate (ds.take 6)
 
-def parseCls (s : String) : Option Bool :=
-  if s == "ok" || s == "rn" then some true
-  else if s == "nf" || s == "bad" || s == "win" || s == "max" then some false else none
+def parseM (s : String) : Option String := if ["ok", "nf", "bad", "win", "max"].contains s then some s else none
+def parseV (s : String) : Option String := if ["ok", "nf", "rn"].contains s then some s else none
+def parseB (s : Option String) : Option String :=
+  match s with
+  | none => some "ok"
+  | some s => if ["ok", "cnt", "mrk"].contains s then some s else none
+
+/-- the lock users found in the source tree (`file:func:count:line`, call edges `pkg:caller>callee`)
+against the model's table `lockUsers`, per package and function.  A function that acquires a
+contract lock but is not in the table is attributed to its callers: it is a difference only if some
+chain of callers ends outside the table (so a helper is fine, a new user is not); a table entry must
+still acquire, itself or through a helper. -/
+def lockUsersStep (d : DState) (l : Line) : DState × List Verdict :=
+  match getStrList l.obs "list" with
+  | none => (d, [.badline "lockusers list"])
+  | some items =>
+    let pkgOf (path : String) : String := "/".intercalate ((path.splitOn "/").dropLast)
+    let parsed := items.map fun it => match it.splitOn ":" with
+      | [file, fn, n, _line] => (pkgOf file, fn, n.toNat?.getD 0)
+      | _ => (it, "", 0)
+    let edges : List (String × String × String) := ((getStrList l.obs "edges").getD []).filterMap fun e =>
+      match e.splitOn ":" with
+      | [pkg, cc] => (match cc.splitOn ">" with
+          | [caller, callee] => some (pkg, caller, callee)
+          | _ => none)
+      | _ => none
+    let inTable (pkg fn : String) : Bool := lockUsers.any fun u => u.pkg == pkg && u.fn == fn
+    let acquires (pkg fn : String) : Bool := parsed.any fun (p, f, _) => p == pkg && f == fn
+    let callersOf (pkg fn : String) : List String := (edges.filter fun (p, _, callee) => p == pkg && callee == fn).map (·.2.1)
+    let calleesOf (pkg fn : String) : List String := (edges.filter fun (p, caller, _) => p == pkg && caller == fn).map (·.2.2)
+    let rec covered (fuel : Nat) (pkg fn : String) : Bool :=
+      match fuel with
+      | 0 => false
+      | fuel + 1 =>
+        inTable pkg fn ||
+          (let cs := callersOf pkg fn
+           !cs.isEmpty && cs.all fun c => covered fuel pkg c)
+    let rec reaches (fuel : Nat) (pkg fn : String) : Bool :=
+      match fuel with
+      | 0 => false
+      | fuel + 1 => acquires pkg fn || (calleesOf pkg fn).any fun c => reaches fuel pkg c
+    let extra : List Verdict := parsed.filterMap fun (pkg, fn, n) =>
+      if covered 6 pkg fn then none
+      else some (.mismatch s!"lockusers/{pkg}:{fn}" "0" (toString n))
+    let missing : List Verdict := lockUsers.filterMap fun u =>
+      if reaches 6 u.pkg u.fn then none
+      else some (.mismatch s!"lockusers/{u.pkg}:{u.fn}" "1" "0")
+    (d, extra ++ missing)
 
 /-- run the issued actions on every candidate, close under internal steps, keep the quiescent ones -/
 def advance (d : DState) (acts : List DAct) : List Cand :=
@@ -282,15 +369,17 @@ def flag (d : DState) (vs : List Verdict) : DState × List Verdict :=
   ({ d with dead := !vs.isEmpty }, vs)
 
 def step (d : DState) (l : Line) : DState × List Verdict :=
-  if l.op == "reset" then
+  if l.op == "lockusers" then lockUsersStep d l
+  else if l.op == "reset" then
     match getNat l.args "threads", getNat l.args "ids" with
     | some th, some ids => (newHistory d th ids, [])
     | _, _ => (d, [.badline "reset needs threads, ids"])
   else if d.dead then (d, [])
   else if l.op == "cls" then
-    match getNat l.args "id", (getStr l.args "m").bind parseCls, (getStr l.args "v").bind parseCls with
-    | some id, some m, some v => ({ d with cls := d.cls.set id { mOk := m, vOk := v } }, [])
-    | _, _, _ => (d, [.badline "cls fields"])
+    match getNat l.args "id", (getStr l.args "m").bind parseM, (getStr l.args "v").bind parseV,
+          parseB (getStr l.args "b"), parseB (getStr l.args "b2") with
+    | some id, some m, some v, some b, some b2 => ({ d with cls := d.cls.set id { m, v, b, b2 } }, [])
+    | _, _, _, _, _ => (d, [.badline "cls fields"])
   else if l.op == "final" then
     match getNat l.obs "allidle", getNat l.obs "locks", getStrList l.obs "relock", getNat l.obs "locks2" with
     | some ai, some locks, some relock, some locks2 =>
@@ -336,10 +425,13 @@ def step (d : DState) (l : Line) : DState × List Verdict :=
       else
         -- ctx bookkeeping from the ops themselves
         let (dcanc, dcable) := acts.foldl (fun (cc, cb) a => match a with
-          | .lock t _ via pre => (cc.set t pre, cb.set t (via != 2))
+          | .lock t _ via pre => (cc.set t pre, cb.set t (viaCable via))
           | .cancel t => (cc.set t true, cb)
           | _ => (cc, cb)) (d.dcanc, d.dcable)
-        let mon := monitors d acts st rets locks dcanc dcable
+        let (dvia, did) := acts.foldl (fun (vs, is) a => match a with
+          | .lock t id via _ => (vs.set t via, is.set t id)
+          | _ => (vs, is)) (d.dvia, d.did)
+        let mon := monitors d acts st rets locks dcanc dcable dvia did
         if !mon.isEmpty then flag d mon
         else
           let qs := advance d acts
@@ -351,7 +443,8 @@ def step (d : DState) (l : Line) : DState × List Verdict :=
             let thr := List.range d.nthr
             let hand := (thr.filter fun t => (at' d.pst t).startsWith "w" && (at' st t).startsWith "h").length
             let d := { d with
-              cands := ok.map clearRets, pst := st, dcanc, dcable
+              cands := ok.map clearRets, pst := st, dcanc, dcable, dvia, did
+              userRets := d.userRets + (thr.filter fun t => (at' rets t == "f" || at' rets t == "s") && (dvia[t]?).getD 0 ≥ 3).length
               handoffs := d.handoffs + hand
               mgrFail := d.mgrFail + cnt' rets "f"
               maxCands := max d.maxCands qs.length
@@ -368,6 +461,6 @@ def step (d : DState) (l : Line) : DState × List Verdict :=
     | _, _, _, _ => (d, [.badline "op fields"])
 
 def stats (d : DState) : String :=
-  s!"hists={d.hists} ops={d.ops} locks_immediate={d.locksImm} locks_blocked={d.locksBlocked} handoffs={d.handoffs} cancel_error={d.cancelErr} cancel_acquired={d.cancelAcq} mgr_fail_released={d.mgrFail} races={d.races} finals={d.finals} max_cands={d.maxCands} ambiguous={d.ambiguous}"
+  s!"hists={d.hists} ops={d.ops} locks_immediate={d.locksImm} locks_blocked={d.locksBlocked} handoffs={d.handoffs} cancel_error={d.cancelErr} cancel_acquired={d.cancelAcq} mgr_fail_released={d.mgrFail} races={d.races} finals={d.finals} user_returns={d.userRets} max_cands={d.maxCands} ambiguous={d.ambiguous}"
 
 end Hostd.Drive.Lock
